@@ -55,6 +55,10 @@ func oracle(c Case) vkit.Outcome {
 	}
 	res := egorun.Run(src, egorun.Config{Types: c.Mode, Optimize: c.Opt, Extensions: true, EntryPoint: "main"})
 	desc := fmt.Sprintf("mode=%s opt=%d\n--- program ---\n%s", c.Mode, c.Opt, src)
+	if res.Runaway {
+		out.Inconclusive = "the run did not end within the harness bound"
+		return out
+	}
 	if res.GoPanic != "" {
 		out.Fail = &vkit.Failure{Sig: "go-panic", Observed: res.GoPanic + "\n" + res.Stack + "\n" + desc, Expected: "no Go panic"}
 		return out
